@@ -77,18 +77,21 @@ package storage
 
 //@ func (*MemoryStore).GetClient
 //@   requires store_wf(s) && held[addr(s.clientsMutex)] == 0 && (forall m2 V :: held[m2] != 0 ==> mrank(m2) < 2)
-//@   modifies held
+//@   modifies acq, held
 //@   ensures [C19.locks-released] held == old(held)
+//@   ensures [C19.one-critical-section-per-table] forall m V :: acq[m] >= old(acq[m]) && acq[m] <= old(acq[m]) + ((m == addr(s.clientsMutex)) ? 1 : 0)
 
 //@ func (*MemoryStore).ClientAssertionJWTValid
 //@   requires store_wf(s) && held[addr(s.blacklistedJTIsMutex)] == 0 && (forall m2 V :: held[m2] != 0 ==> mrank(m2) < 2)
-//@   modifies held
+//@   modifies acq, held
 //@   ensures [C19.locks-released] held == old(held)
+//@   ensures [C19.one-critical-section-per-table] forall m V :: acq[m] >= old(acq[m]) && acq[m] <= old(acq[m]) + ((m == addr(s.blacklistedJTIsMutex)) ? 1 : 0)
 
 //@ func (*MemoryStore).SetClientAssertionJWT
 //@   requires store_wf(s) && held[addr(s.blacklistedJTIsMutex)] == 0 && (forall m2 V :: held[m2] != 0 ==> mrank(m2) < 2)
-//@   modifies held, mapof(s.BlacklistedJTIs)
+//@   modifies acq, held, mapof(s.BlacklistedJTIs)
 //@   ensures [C19.locks-released] held == old(held)
+//@   ensures [C19.one-critical-section-per-table] forall m V :: acq[m] >= old(acq[m]) && acq[m] <= old(acq[m]) + ((m == addr(s.blacklistedJTIsMutex)) ? 1 : 0)
 //@   let B = s.BlacklistedJTIs
 //@   ensures [C15.jti-mark-if-absent] err == nil ==> (jti in B) && B[jti] == exp && (old(jti in B) ==> old(B[jti]) < $now)
 //@   ensures [C15.jti-mark-if-absent] err != nil ==> eis(err, fosite.ErrJTIKnown) && old(jti in B) && (jti in B) && B[jti] == old(B[jti])
@@ -98,100 +101,115 @@ package storage
 
 //@ func (*MemoryStore).CreateAuthorizeCodeSession
 //@   requires store_wf(s) && held[addr(s.authorizeCodesMutex)] == 0 && (forall m2 V :: held[m2] != 0 ==> mrank(m2) < 2)
-//@   modifies held, mapof(s.AuthorizeCodes)
+//@   modifies acq, held, mapof(s.AuthorizeCodes)
 //@   ensures [C19.locks-released] held == old(held)
+//@   ensures [C19.one-critical-section-per-table] forall m V :: acq[m] >= old(acq[m]) && acq[m] <= old(acq[m]) + ((m == addr(s.authorizeCodesMutex)) ? 1 : 0)
 //@   ensures [C01.store-code-table] err == nil && (code in s.AuthorizeCodes) && s.AuthorizeCodes[code].active && s.AuthorizeCodes[code].Requester == req && (forall k string :: k != code ==> (k in s.AuthorizeCodes) == old(k in s.AuthorizeCodes) && s.AuthorizeCodes[k].active == old(s.AuthorizeCodes[k].active) && s.AuthorizeCodes[k].Requester == old(s.AuthorizeCodes[k].Requester))
 
 //@ func (*MemoryStore).GetAuthorizeCodeSession
 //@   requires store_wf(s) && held[addr(s.authorizeCodesMutex)] == 0 && (forall m2 V :: held[m2] != 0 ==> mrank(m2) < 2)
-//@   modifies held
+//@   modifies acq, held
 //@   ensures [C19.locks-released] held == old(held)
+//@   ensures [C19.one-critical-section-per-table] forall m V :: acq[m] >= old(acq[m]) && acq[m] <= old(acq[m]) + ((m == addr(s.authorizeCodesMutex)) ? 1 : 0)
 //@   ensures [C01.store-code-table] err == nil ==> (code in s.AuthorizeCodes) && s.AuthorizeCodes[code].active && result == s.AuthorizeCodes[code].Requester
 //@   ensures [C01.store-code-table] !(code in s.AuthorizeCodes) ==> err != nil && eis(err, fosite.ErrNotFound) && result == nil
 //@   ensures [C01.store-code-table] (code in s.AuthorizeCodes) && !s.AuthorizeCodes[code].active ==> err != nil && eis(err, fosite.ErrInvalidatedAuthorizeCode) && result != nil
 
 //@ func (*MemoryStore).InvalidateAuthorizeCodeSession
 //@   requires store_wf(s) && held[addr(s.authorizeCodesMutex)] == 0 && (forall m2 V :: held[m2] != 0 ==> mrank(m2) < 2)
-//@   modifies held, mapof(s.AuthorizeCodes)
+//@   modifies acq, held, mapof(s.AuthorizeCodes)
 //@   ensures [C19.locks-released] held == old(held)
+//@   ensures [C19.one-critical-section-per-table] forall m V :: acq[m] >= old(acq[m]) && acq[m] <= old(acq[m]) + ((m == addr(s.authorizeCodesMutex)) ? 1 : 0)
 //@   ensures [C01.store-code-table] err == nil ==> old(code in s.AuthorizeCodes) && (code in s.AuthorizeCodes) && !s.AuthorizeCodes[code].active && s.AuthorizeCodes[code].Requester == old(s.AuthorizeCodes[code].Requester)
 //@   ensures [C01.store-code-table] err != nil ==> eis(err, fosite.ErrNotFound) && !old(code in s.AuthorizeCodes)
 //@   ensures [C01.store-code-never-reactivated] forall k string :: (k in s.AuthorizeCodes) == old(k in s.AuthorizeCodes) && (k != code ==> s.AuthorizeCodes[k].active == old(s.AuthorizeCodes[k].active)) && (!old(s.AuthorizeCodes[k].active) ==> !s.AuthorizeCodes[k].active)
 
 //@ func (*MemoryStore).CreatePKCERequestSession
 //@   requires store_wf(s) && held[addr(s.pkcesMutex)] == 0 && (forall m2 V :: held[m2] != 0 ==> mrank(m2) < 2)
-//@   modifies held, mapof(s.PKCES)
+//@   modifies acq, held, mapof(s.PKCES)
 //@   ensures [C19.locks-released] held == old(held)
+//@   ensures [C19.one-critical-section-per-table] forall m V :: acq[m] >= old(acq[m]) && acq[m] <= old(acq[m]) + ((m == addr(s.pkcesMutex)) ? 1 : 0)
 //@   ensures [C03.store-pkce-table] err == nil && (code in s.PKCES) && s.PKCES[code] == req && (forall k string :: k != code ==> (k in s.PKCES) == old(k in s.PKCES) && s.PKCES[k] == old(s.PKCES[k]))
 
 //@ func (*MemoryStore).GetPKCERequestSession
 //@   requires store_wf(s) && held[addr(s.pkcesMutex)] == 0 && (forall m2 V :: held[m2] != 0 ==> mrank(m2) < 2)
-//@   modifies held
+//@   modifies acq, held
 //@   ensures [C19.locks-released] held == old(held)
+//@   ensures [C19.one-critical-section-per-table] forall m V :: acq[m] >= old(acq[m]) && acq[m] <= old(acq[m]) + ((m == addr(s.pkcesMutex)) ? 1 : 0)
 //@   ensures [C03.store-pkce-table] err == nil ==> (code in s.PKCES) && result == s.PKCES[code]
 //@   ensures [C03.store-pkce-table] !(code in s.PKCES) ==> err != nil && eis(err, fosite.ErrNotFound) && result == nil
 
 //@ func (*MemoryStore).DeletePKCERequestSession
 //@   requires store_wf(s) && held[addr(s.pkcesMutex)] == 0 && (forall m2 V :: held[m2] != 0 ==> mrank(m2) < 2)
-//@   modifies held, mapof(s.PKCES)
+//@   modifies acq, held, mapof(s.PKCES)
 //@   ensures [C19.locks-released] held == old(held)
+//@   ensures [C19.one-critical-section-per-table] forall m V :: acq[m] >= old(acq[m]) && acq[m] <= old(acq[m]) + ((m == addr(s.pkcesMutex)) ? 1 : 0)
 //@   ensures [C03.store-pkce-table] err == nil && !(code in s.PKCES) && (forall k string :: k != code ==> (k in s.PKCES) == old(k in s.PKCES) && s.PKCES[k] == old(s.PKCES[k]))
 
 //@ func (*MemoryStore).CreateAccessTokenSession
 //@   requires store_wf(s) && held[addr(s.accessTokenRequestIDsMutex)] == 0 && held[addr(s.accessTokensMutex)] == 0 && (forall m2 V :: held[m2] != 0 ==> mrank(m2) < 1)
-//@   modifies held, mapof(s.AccessTokenRequestIDs), mapof(s.AccessTokens)
+//@   modifies acq, held, mapof(s.AccessTokenRequestIDs), mapof(s.AccessTokens)
 //@   ensures [C19.locks-released] held == old(held)
+//@   ensures [C19.one-critical-section-per-table] forall m V :: acq[m] >= old(acq[m]) && acq[m] <= old(acq[m]) + ((m == addr(s.accessTokenRequestIDsMutex) || m == addr(s.accessTokensMutex)) ? 1 : 0)
 //@   ensures [C08.store-access-table] err == nil && (signature in s.AccessTokens) && s.AccessTokens[signature] == req && (forall k string :: k != signature ==> (k in s.AccessTokens) == old(k in s.AccessTokens) && s.AccessTokens[k] == old(s.AccessTokens[k]))
 
 //@ func (*MemoryStore).GetAccessTokenSession
 //@   requires store_wf(s) && held[addr(s.accessTokensMutex)] == 0 && (forall m2 V :: held[m2] != 0 ==> mrank(m2) < 2)
-//@   modifies held
+//@   modifies acq, held
 //@   ensures [C19.locks-released] held == old(held)
+//@   ensures [C19.one-critical-section-per-table] forall m V :: acq[m] >= old(acq[m]) && acq[m] <= old(acq[m]) + ((m == addr(s.accessTokensMutex)) ? 1 : 0)
 //@   ensures [C08.store-access-table] err == nil ==> (signature in s.AccessTokens) && result == s.AccessTokens[signature]
 //@   ensures [C08.store-access-table] !(signature in s.AccessTokens) ==> err != nil && eis(err, fosite.ErrNotFound)
 
 //@ func (*MemoryStore).DeleteAccessTokenSession
 //@   requires store_wf(s) && held[addr(s.accessTokensMutex)] == 0 && (forall m2 V :: held[m2] != 0 ==> mrank(m2) < 2)
-//@   modifies held, mapof(s.AccessTokens)
+//@   modifies acq, held, mapof(s.AccessTokens)
 //@   ensures [C19.locks-released] held == old(held)
+//@   ensures [C19.one-critical-section-per-table] forall m V :: acq[m] >= old(acq[m]) && acq[m] <= old(acq[m]) + ((m == addr(s.accessTokensMutex)) ? 1 : 0)
 //@   ensures [C08.store-access-table] err == nil && !(signature in s.AccessTokens) && (forall k string :: k != signature ==> (k in s.AccessTokens) == old(k in s.AccessTokens) && s.AccessTokens[k] == old(s.AccessTokens[k]))
 
 //@ func (*MemoryStore).CreateRefreshTokenSession
 //@   requires store_wf(s) && held[addr(s.refreshTokenRequestIDsMutex)] == 0 && held[addr(s.refreshTokensMutex)] == 0 && (forall m2 V :: held[m2] != 0 ==> mrank(m2) < 1)
-//@   modifies held, mapof(s.RefreshTokenRequestIDs), mapof(s.RefreshTokens)
+//@   modifies acq, held, mapof(s.RefreshTokenRequestIDs), mapof(s.RefreshTokens)
 //@   ensures [C19.locks-released] held == old(held)
+//@   ensures [C19.one-critical-section-per-table] forall m V :: acq[m] >= old(acq[m]) && acq[m] <= old(acq[m]) + ((m == addr(s.refreshTokenRequestIDsMutex) || m == addr(s.refreshTokensMutex)) ? 1 : 0)
 //@   ensures [C04.store-refresh-table] err == nil && (signature in s.RefreshTokens) && s.RefreshTokens[signature].active && s.RefreshTokens[signature].Requester == req && (forall k string :: k != signature ==> (k in s.RefreshTokens) == old(k in s.RefreshTokens) && s.RefreshTokens[k].active == old(s.RefreshTokens[k].active) && s.RefreshTokens[k].Requester == old(s.RefreshTokens[k].Requester))
 
 //@ func (*MemoryStore).GetRefreshTokenSession
 //@   requires store_wf(s) && held[addr(s.refreshTokensMutex)] == 0 && (forall m2 V :: held[m2] != 0 ==> mrank(m2) < 2)
-//@   modifies held
+//@   modifies acq, held
 //@   ensures [C19.locks-released] held == old(held)
+//@   ensures [C19.one-critical-section-per-table] forall m V :: acq[m] >= old(acq[m]) && acq[m] <= old(acq[m]) + ((m == addr(s.refreshTokensMutex)) ? 1 : 0)
 //@   ensures [C04.store-refresh-table] err == nil ==> (signature in s.RefreshTokens) && s.RefreshTokens[signature].active && result != nil
 //@   ensures [C04.store-refresh-table] !(signature in s.RefreshTokens) ==> err != nil && eis(err, fosite.ErrNotFound) && result == nil
 //@   ensures [C04.store-refresh-table] (signature in s.RefreshTokens) && !s.RefreshTokens[signature].active ==> err != nil && eis(err, fosite.ErrInactiveToken) && result != nil
 
 //@ func (*MemoryStore).DeleteRefreshTokenSession
 //@   requires store_wf(s) && held[addr(s.refreshTokensMutex)] == 0 && (forall m2 V :: held[m2] != 0 ==> mrank(m2) < 2)
-//@   modifies held, mapof(s.RefreshTokens)
+//@   modifies acq, held, mapof(s.RefreshTokens)
 //@   ensures [C19.locks-released] held == old(held)
+//@   ensures [C19.one-critical-section-per-table] forall m V :: acq[m] >= old(acq[m]) && acq[m] <= old(acq[m]) + ((m == addr(s.refreshTokensMutex)) ? 1 : 0)
 //@   ensures [C04.store-refresh-table] err == nil && !(signature in s.RefreshTokens) && (forall k string :: k != signature ==> (k in s.RefreshTokens) == old(k in s.RefreshTokens) && s.RefreshTokens[k].active == old(s.RefreshTokens[k].active))
 
 //@ func (*MemoryStore).Authenticate
 //@   requires store_wf(s) && held[addr(s.usersMutex)] == 0 && (forall m2 V :: held[m2] != 0 ==> mrank(m2) < 2)
-//@   modifies held
+//@   modifies acq, held
 //@   ensures [C19.locks-released] held == old(held)
+//@   ensures [C19.one-critical-section-per-table] forall m V :: acq[m] >= old(acq[m]) && acq[m] <= old(acq[m]) + ((m == addr(s.usersMutex)) ? 1 : 0)
 
 //@ func (*MemoryStore).RevokeRefreshToken
 //@   requires store_wf(s) && held[addr(s.refreshTokenRequestIDsMutex)] == 0 && held[addr(s.refreshTokensMutex)] == 0 && (forall m2 V :: held[m2] != 0 ==> mrank(m2) < 1)
-//@   modifies held, mapof(s.RefreshTokens)
+//@   modifies acq, held, mapof(s.RefreshTokens)
 //@   ensures [C19.locks-released] held == old(held)
+//@   ensures [C19.one-critical-section-per-table] forall m V :: acq[m] >= old(acq[m]) && acq[m] <= old(acq[m]) + ((m == addr(s.refreshTokenRequestIDsMutex) || m == addr(s.refreshTokensMutex)) ? 1 : 0)
 //@   ensures [C04.store-refresh-never-reactivated] forall k string :: (k in s.RefreshTokens) == old(k in s.RefreshTokens) && (!old(s.RefreshTokens[k].active) ==> !s.RefreshTokens[k].active) && s.RefreshTokens[k].Requester == old(s.RefreshTokens[k].Requester)
 //@   ensures [C04.store-revokes-indexed-refresh-token] err == nil && old(requestID in s.RefreshTokenRequestIDs) ==> !s.RefreshTokens[old(s.RefreshTokenRequestIDs[requestID])].active
 
 //@ func (*MemoryStore).RevokeAccessToken
 //@   requires store_wf(s) && held[addr(s.accessTokenRequestIDsMutex)] == 0 && held[addr(s.accessTokensMutex)] == 0 && (forall m2 V :: held[m2] != 0 ==> mrank(m2) < 1)
-//@   modifies held, mapof(s.AccessTokens)
+//@   modifies acq, held, mapof(s.AccessTokens)
 //@   ensures [C19.locks-released] held == old(held)
+//@   ensures [C19.one-critical-section-per-table] forall m V :: acq[m] >= old(acq[m]) && acq[m] <= old(acq[m]) + ((m == addr(s.accessTokenRequestIDsMutex) || m == addr(s.accessTokensMutex)) ? 1 : 0)
 //@   invariant loop#1 [C08.store-revokes-every-token-of-request] s.AccessTokens == pre(s.AccessTokens) && (forall k string :: (k in s.AccessTokens) ==> old(k in s.AccessTokens) && s.AccessTokens[k] == old(s.AccessTokens[k])) && (forall k string :: old(k in s.AccessTokens) && old(s.AccessTokens[k]).GetID() != requestID ==> (k in s.AccessTokens)) && (forall k string :: $visited(k) && old(k in s.AccessTokens) && old(s.AccessTokens[k]).GetID() == requestID ==> !(k in s.AccessTokens))
 //@   ensures [C08.store-revokes-every-token-of-request] err == nil ==> (forall k string :: old(k in s.AccessTokens) && old(s.AccessTokens[k]).GetID() == requestID ==> !(k in s.AccessTokens))
 //@   ensures [C08.store-revoke-touches-only-that-request] forall k string :: (k in s.AccessTokens) ==> old(k in s.AccessTokens) && s.AccessTokens[k] == old(s.AccessTokens[k])
@@ -199,81 +217,96 @@ package storage
 
 //@ func (*MemoryStore).GetPublicKey
 //@   requires store_wf(s) && held[addr(s.issuerPublicKeysMutex)] == 0 && (forall m2 V :: held[m2] != 0 ==> mrank(m2) < 2)
-//@   modifies held
+//@   modifies acq, held
 //@   ensures [C19.locks-released] held == old(held)
+//@   ensures [C19.one-critical-section-per-table] forall m V :: acq[m] >= old(acq[m]) && acq[m] <= old(acq[m]) + ((m == addr(s.issuerPublicKeysMutex)) ? 1 : 0)
 
 //@ func (*MemoryStore).GetPublicKeyScopes
 //@   requires store_wf(s) && held[addr(s.issuerPublicKeysMutex)] == 0 && (forall m2 V :: held[m2] != 0 ==> mrank(m2) < 2)
-//@   modifies held
+//@   modifies acq, held
 //@   ensures [C19.locks-released] held == old(held)
+//@   ensures [C19.one-critical-section-per-table] forall m V :: acq[m] >= old(acq[m]) && acq[m] <= old(acq[m]) + ((m == addr(s.issuerPublicKeysMutex)) ? 1 : 0)
 
 //@ func (*MemoryStore).IsJWTUsed
 //@   requires store_wf(s) && held[addr(s.blacklistedJTIsMutex)] == 0 && (forall m2 V :: held[m2] != 0 ==> mrank(m2) < 2)
-//@   modifies held
+//@   modifies acq, held
 //@   ensures [C19.locks-released] held == old(held)
+//@   ensures [C19.one-critical-section-per-table] forall m V :: acq[m] >= old(acq[m]) && acq[m] <= old(acq[m]) + ((m == addr(s.blacklistedJTIsMutex)) ? 1 : 0)
 
 //@ func (*MemoryStore).MarkJWTUsedForTime
 //@   requires store_wf(s) && held[addr(s.blacklistedJTIsMutex)] == 0 && (forall m2 V :: held[m2] != 0 ==> mrank(m2) < 2)
-//@   modifies held, mapof(s.BlacklistedJTIs)
+//@   modifies acq, held, mapof(s.BlacklistedJTIs)
 //@   ensures [C19.locks-released] held == old(held)
+//@   ensures [C19.one-critical-section-per-table] forall m V :: acq[m] >= old(acq[m]) && acq[m] <= old(acq[m]) + ((m == addr(s.blacklistedJTIsMutex)) ? 1 : 0)
 
 //@ func (*MemoryStore).CreatePARSession
 //@   requires store_wf(s) && held[addr(s.parSessionsMutex)] == 0 && (forall m2 V :: held[m2] != 0 ==> mrank(m2) < 2)
-//@   modifies held, mapof(s.PARSessions)
+//@   modifies acq, held, mapof(s.PARSessions)
 //@   ensures [C19.locks-released] held == old(held)
+//@   ensures [C19.one-critical-section-per-table] forall m V :: acq[m] >= old(acq[m]) && acq[m] <= old(acq[m]) + ((m == addr(s.parSessionsMutex)) ? 1 : 0)
 //@   ensures [C17.store-par-table] err == nil && (requestURI in s.PARSessions) && s.PARSessions[requestURI] == request && (forall k string :: k != requestURI ==> (k in s.PARSessions) == old(k in s.PARSessions) && s.PARSessions[k] == old(s.PARSessions[k]))
 
 //@ func (*MemoryStore).GetPARSession
 //@   requires store_wf(s) && held[addr(s.parSessionsMutex)] == 0 && (forall m2 V :: held[m2] != 0 ==> mrank(m2) < 2)
-//@   modifies held
+//@   modifies acq, held
 //@   ensures [C19.locks-released] held == old(held)
+//@   ensures [C19.one-critical-section-per-table] forall m V :: acq[m] >= old(acq[m]) && acq[m] <= old(acq[m]) + ((m == addr(s.parSessionsMutex)) ? 1 : 0)
 //@   ensures [C17.store-par-table] err == nil ==> (requestURI in s.PARSessions) && result == s.PARSessions[requestURI]
 //@   ensures [C17.store-par-table] !(requestURI in s.PARSessions) ==> err != nil && eis(err, fosite.ErrNotFound) && result == nil
 
 //@ func (*MemoryStore).DeletePARSession
 //@   requires store_wf(s) && held[addr(s.parSessionsMutex)] == 0 && (forall m2 V :: held[m2] != 0 ==> mrank(m2) < 2)
-//@   modifies held, mapof(s.PARSessions)
+//@   modifies acq, held, mapof(s.PARSessions)
 //@   ensures [C19.locks-released] held == old(held)
+//@   ensures [C19.one-critical-section-per-table] forall m V :: acq[m] >= old(acq[m]) && acq[m] <= old(acq[m]) + ((m == addr(s.parSessionsMutex)) ? 1 : 0)
 //@   ensures [C17.store-par-one-time] err == nil && !(requestURI in s.PARSessions) && (forall k string :: k != requestURI ==> (k in s.PARSessions) == old(k in s.PARSessions) && s.PARSessions[k] == old(s.PARSessions[k]))
 
 //@ func (*MemoryStore).RotateRefreshToken
 //@   requires store_wf(s) && held[addr(s.refreshTokenRequestIDsMutex)] == 0 && held[addr(s.refreshTokensMutex)] == 0 && held[addr(s.accessTokenRequestIDsMutex)] == 0 && held[addr(s.accessTokensMutex)] == 0 && (forall m2 V :: held[m2] != 0 ==> mrank(m2) < 1)
-//@   modifies held, mapof(s.RefreshTokens), mapof(s.AccessTokens)
+//@   modifies acq, held, mapof(s.RefreshTokens), mapof(s.AccessTokens)
 //@   ensures [C19.locks-released] held == old(held)
+//@   ensures [C19.one-critical-section-per-table] forall m V :: acq[m] >= old(acq[m]) && acq[m] <= old(acq[m]) + ((m == addr(s.refreshTokenRequestIDsMutex) || m == addr(s.refreshTokensMutex) || m == addr(s.accessTokenRequestIDsMutex) || m == addr(s.accessTokensMutex)) ? 1 : 0)
+//@   ensures [C04.store-rotation-keeps-used-tokens] forall k string :: (k in s.RefreshTokens) == old(k in s.RefreshTokens) && (!old(s.RefreshTokens[k].active) ==> !s.RefreshTokens[k].active) && s.RefreshTokens[k].Requester == old(s.RefreshTokens[k].Requester)
 
 //@ func (*MemoryStore).CreateDeviceAuthSession
 //@   requires store_wf(s) && held[addr(s.deviceAuthsRequestIDsMutex)] == 0 && held[addr(s.deviceAuthsMutex)] == 0 && (forall m2 V :: held[m2] != 0 ==> mrank(m2) < 1)
-//@   modifies held, mapof(s.DeviceAuths), mapof(s.DeviceCodesRequestIDs)
+//@   modifies acq, held, mapof(s.DeviceAuths), mapof(s.DeviceCodesRequestIDs)
 //@   ensures [C19.locks-released] held == old(held)
+//@   ensures [C19.one-critical-section-per-table] forall m V :: acq[m] >= old(acq[m]) && acq[m] <= old(acq[m]) + ((m == addr(s.deviceAuthsRequestIDsMutex) || m == addr(s.deviceAuthsMutex)) ? 1 : 0)
 
 //@ func (*MemoryStore).GetDeviceCodeSession
 //@   requires store_wf(s) && held[addr(s.deviceAuthsMutex)] == 0 && (forall m2 V :: held[m2] != 0 ==> mrank(m2) < 2)
-//@   modifies held
+//@   modifies acq, held
 //@   ensures [C19.locks-released] held == old(held)
+//@   ensures [C19.one-critical-section-per-table] forall m V :: acq[m] >= old(acq[m]) && acq[m] <= old(acq[m]) + ((m == addr(s.deviceAuthsMutex)) ? 1 : 0)
 //@   ensures [C16.store-device-table] err == nil ==> (signature in s.DeviceAuths) && result == s.DeviceAuths[signature]
 //@   ensures [C16.store-device-table] !(signature in s.DeviceAuths) ==> err != nil && eis(err, fosite.ErrNotFound) && result == nil
 
 //@ func (*MemoryStore).InvalidateDeviceCodeSession
 //@   requires store_wf(s) && held[addr(s.deviceAuthsRequestIDsMutex)] == 0 && held[addr(s.deviceAuthsMutex)] == 0 && (forall m2 V :: held[m2] != 0 ==> mrank(m2) < 1)
-//@   modifies held, mapof(s.DeviceAuths)
+//@   modifies acq, held, mapof(s.DeviceAuths)
 //@   ensures [C19.locks-released] held == old(held)
+//@   ensures [C19.one-critical-section-per-table] forall m V :: acq[m] >= old(acq[m]) && acq[m] <= old(acq[m]) + ((m == addr(s.deviceAuthsRequestIDsMutex) || m == addr(s.deviceAuthsMutex)) ? 1 : 0)
 //@   ensures [C16.store-device-code-used-up] err == nil && !(code in s.DeviceAuths) && (forall k string :: k != code ==> (k in s.DeviceAuths) == old(k in s.DeviceAuths) && s.DeviceAuths[k] == old(s.DeviceAuths[k]))
 
 //@ func (*MemoryStore).CreateOpenIDConnectSession
 //@   requires store_wf(s) && held[addr(s.idSessionsMutex)] == 0 && (forall m2 V :: held[m2] != 0 ==> mrank(m2) < 2)
-//@   modifies held, mapof(s.IDSessions)
+//@   modifies acq, held, mapof(s.IDSessions)
 //@   ensures [C19.locks-released] held == old(held)
+//@   ensures [C19.one-critical-section-per-table] forall m V :: acq[m] >= old(acq[m]) && acq[m] <= old(acq[m]) + ((m == addr(s.idSessionsMutex)) ? 1 : 0)
 //@   ensures [C14.store-oidc-table] err == nil && (authorizeCode in s.IDSessions) && s.IDSessions[authorizeCode] == requester && (forall k string :: k != authorizeCode ==> (k in s.IDSessions) == old(k in s.IDSessions) && s.IDSessions[k] == old(s.IDSessions[k]))
 
 //@ func (*MemoryStore).GetOpenIDConnectSession
 //@   requires store_wf(s) && held[addr(s.idSessionsMutex)] == 0 && (forall m2 V :: held[m2] != 0 ==> mrank(m2) < 2)
-//@   modifies held
+//@   modifies acq, held
 //@   ensures [C19.locks-released] held == old(held)
+//@   ensures [C19.one-critical-section-per-table] forall m V :: acq[m] >= old(acq[m]) && acq[m] <= old(acq[m]) + ((m == addr(s.idSessionsMutex)) ? 1 : 0)
 //@   ensures [C14.store-oidc-table] err == nil ==> (authorizeCode in s.IDSessions) && result == s.IDSessions[authorizeCode]
 //@   ensures [C14.store-oidc-table] !(authorizeCode in s.IDSessions) ==> err != nil && eis(err, fosite.ErrNotFound) && result == nil
 
 //@ func (*MemoryStore).DeleteOpenIDConnectSession
 //@   requires store_wf(s) && held[addr(s.idSessionsMutex)] == 0 && (forall m2 V :: held[m2] != 0 ==> mrank(m2) < 2)
-//@   modifies held, mapof(s.IDSessions)
+//@   modifies acq, held, mapof(s.IDSessions)
 //@   ensures [C19.locks-released] held == old(held)
+//@   ensures [C19.one-critical-section-per-table] forall m V :: acq[m] >= old(acq[m]) && acq[m] <= old(acq[m]) + ((m == addr(s.idSessionsMutex)) ? 1 : 0)
 //@   ensures [C14.store-oidc-table] err == nil && !(authorizeCode in s.IDSessions) && (forall k string :: k != authorizeCode ==> (k in s.IDSessions) == old(k in s.IDSessions) && s.IDSessions[k] == old(s.IDSessions[k]))
